@@ -194,8 +194,9 @@ func parse(out string) (kind string, data []byte, alarms int) {
 }
 
 func run(r *core.Run) {
-	r.Rule = "poison records of both kinds under key histories of length 1–3 (record sealed under any key of the history), alone or embedded at offsets 0–32 in junk/tag-rich columns, through the SQL-proxy callback stack and AcraTranslator decrypt; negatives: random bytes, client envelopes, bit-flipped/truncated poison records, callbacks not configured, poison keys missing; non-trivial = a column holding an (intact or damaged) envelope; distinct by column bytes"
+	r.Rule = "poison records of both kinds under key histories of length 1–3 (record sealed under any key of the history), alone or embedded at offsets 0–32 in junk/tag-rich columns, through the SQL-proxy callback stack and AcraTranslator decrypt; negatives: random bytes, client envelopes, bit-flipped/truncated poison records, callbacks not configured, poison keys missing; non-trivial = a column holding an (intact or damaged) envelope; distinct by column bytes; all four AcraTranslator decrypt operations on bare poison records with every shape of the hash argument; scenarios on a REAL v1 filesystem key store (cache -1/0/2/1000, key directory spelled 4 ways): detection attempt, rotation of the poison key pair / symmetric key by the handle, poison records under every generation alone and embedded"
 	rd := r.Rand
+	storeScenarios(r)
 	n := r.N(60, 2500)
 	for i := 0; i < n; i++ {
 		pk := env.NewKV(rd, 1+rd.Intn(3), 1+rd.Intn(3)) // poison key history, newest first
